@@ -272,8 +272,9 @@ def yaw_case(arg):
     for i, (yg, ye) in enumerate(pairs_):
         x = -40.0 + 15.0 * i
         y = 6.0 * ((i % 3) - 1)
-        G.append(obj3d((x, y, 0.0), yaw=yg, size=(2.0, 4.0, 1.5), label="car", frame=fr, ego=ego, uuid="g%d" % i))
-        E.append(obj3d((x + 0.2, y - 0.1, 0.0), yaw=ye, size=(2.0, 4.0, 1.5), label="car", score=0.9 - 0.01 * i, frame=fr, ego=ego, uuid="e%d" % i))
+        lab = "car" if i % 2 == 0 else "pedestrian"
+        G.append(obj3d((x, y, 0.0), yaw=yg, size=(2.0, 4.0, 1.5), label=lab, frame=fr, ego=ego, uuid="g%d" % i))
+        E.append(obj3d((x + 0.2, y - 0.1, 0.0), yaw=ye, size=(2.0, 4.0, 1.5), label=lab, score=0.9 - 0.01 * i, frame=fr, ego=ego, uuid="e%d" % i))
     crit = CriticalObjectFilterConfig(ec, ["car", "pedestrian"], max_x_position_list=[100.0, 100.0], max_y_position_list=[100.0, 100.0])
     pfc = PerceptionPassFailConfig(ec, ["car", "pedestrian"], [2.0, 2.0])
     info = dict(rendering=rendering, pairs=pairs_)
@@ -286,8 +287,10 @@ def yaw_case(arg):
         if gt_df is None or len(err) != len(pairs_):
             return [], dict(info, problem="%d yaw errors for %d pairs" % (len(err), len(pairs_)))
         evs = []
+        by_label = {"car": [], "pedestrian": []}
         for (_, grow), e_ in zip(gt_df.iterrows(), err):
             i = int(round((float(grow["x"]) + 40.0) / 15.0))
+            by_label["car" if i % 2 == 0 else "pedestrian"].append(float(e_))
             yg, ye = pairs_[i]
             dd = abs(math.atan2(math.sin(yg - ye), math.cos(yg - ye)))
             w4 = int(round((1 - dd / math.pi) * 1e4))
@@ -296,6 +299,12 @@ def yaw_case(arg):
         row = summ.loc[("ALL", "yaw")]
         want = dict(average=float(np.average(err)), rms=float(np.sqrt(np.square(err).mean())), std=float(np.std(err)), max=float(np.max(np.abs(err))), min=float(np.min(np.abs(err))))
         bad = [k_ for k_, v in want.items() if abs(float(row[k_]) - v) > 1e-9]
+        # the per-label rows summarise that label's pairs only
+        for lab_, errs_ in by_label.items():
+            if errs_ and (lab_, "yaw") in summ.index:
+                e2 = np.array(errs_)
+                w2 = dict(average=float(np.average(e2)), rms=float(np.sqrt(np.square(e2).mean())), max=float(np.max(np.abs(e2))), min=float(np.min(np.abs(e2))))
+                bad += ["%s:%s" % (lab_, k_) for k_, v in w2.items() if abs(float(summ.loc[(lab_, "yaw")][k_]) - v) > 1e-9]
         return evs, dict(info, errors=[float(v) for v in err], summary_mismatch=bad)
     except Exception as ex:
         return [], dict(info, problem="raised %r" % (ex,))
